@@ -42,6 +42,14 @@ def main():
                     print(f"REPRODUCED: {name} of {q} differs from the PCHIP interpolation at the midpoints: "
                           f"{arr[:, qi].real.tolist()} vs {ref.tolist()}")
                     return 1
+    import subprocess
+    q = subprocess.run([sys.executable, os.path.join(os.path.dirname(os.path.abspath(__file__)), "c22_traj.py")],
+                       capture_output=True, text=True, timeout=900)
+    out = "\n".join(l for l in q.stdout.splitlines() if "conda" not in l.lower())
+    if q.returncode == 1 and "REPRODUCED:" in out:
+        print("\n".join(out.splitlines()[-6:]))
+        return 1
+    print("  trajectory part: " + (out.strip().splitlines() or ["(no output)"])[-1])
     print(f"NOT-REPRODUCED: {len(cases)} sample sets: interpolated at midpoints, amplitude never negative")
     return 0
 
